@@ -86,6 +86,8 @@ theorem apply_counter_other (c : RtCtx) (σ : CState) (isStart : Bool) (a : AEv)
   | brk => rfl
   | ret _ => rfl
   | yield _ => rfl
+  | opt _ => rfl
+  | raised => rfl
   | set i e => simp only [RtCtx.apply]; split <;> first | rw [addFault_str] | rfl
   | append i byte =>
     simp only [RtCtx.apply]
@@ -156,6 +158,8 @@ theorem sat_after (c : RtCtx) (σ : CState) (isStart : Bool) (α : Full) (a : AE
   | brk => exact h j v hv
   | ret _ => exact h j v hv
   | yield _ => exact h j v hv
+  | opt _ => exact h j v hv
+  | raised => exact h j v hv
   | set i e =>
     rw [apply_counter_other c σ isStart _ j trivial]; exact h j v hv
   | append i byte =>
